@@ -99,6 +99,9 @@ func genConfig(rng *simcore.RNG, env *simcore.Env) simcore.Op {
 	c["lca"] = rng.Bool(0.8)
 	c["report"] = rng.Bool(0.8)
 	c["pert"] = []int{200, 450, 700}[rng.Intn(3)]
+	// share of light-client-attack evidence whose conflicting commit also carries valid
+	// precommits FOR NIL of validators outside the coalition (left behind by failed rounds)
+	c["nilp"] = []int{0, 300, 500, 800}[rng.Intn(4)]
 	return c
 }
 
@@ -579,6 +582,8 @@ func (s *sim) buildLCA(r simcore.Op) *item {
 	hdr := canon // copy
 	var conf *types.ValidatorSet
 	signer := map[string]bool{}
+	nilVoter := map[string]bool{}
+	nl := r.Int("nl") != 0
 	var round int32
 	ch := c
 	var signerPower, confTotal, coalPower int64
@@ -626,11 +631,35 @@ func (s *sim) buildLCA(r simcore.Op) *item {
 			signer[string(k.PubKey().Address())] = true
 			signerPower += pw
 		}
+		extraPower := int64(0)
 		switch {
 		case p == "conf_low":
-			vals = append(vals, types.NewValidator(chaingen.Key(200).PubKey(), signerPower*2))
+			extraPower = signerPower * 2
+			vals = append(vals, types.NewValidator(chaingen.Key(200).PubKey(), extraPower))
 		case signerPower >= 4 && rng.Bool(0.3):
-			vals = append(vals, types.NewValidator(chaingen.Key(200).PubKey(), signerPower/4))
+			extraPower = signerPower / 4
+			vals = append(vals, types.NewValidator(chaingen.Key(200).PubKey(), extraPower))
+		}
+		if nl {
+			// members of the conflicting set that did NOT sign the block: their slots carry valid
+			// precommits for nil (the made-up member, and validators of the common set outside
+			// the coalition). They prove nothing and never count.
+			if extraPower > 0 {
+				nilVoter[string(chaingen.Key(200).PubKey().Address())] = true
+			}
+			memberPower := signerPower + extraPower
+			for _, i := range perm {
+				v := common.Validators[i]
+				if signer[string(v.Address)] {
+					continue
+				}
+				if p != "coal_low" && p != "conf_low" && signerPower*3 <= 2*(memberPower+v.VotingPower) {
+					continue // would take the +2/3 of the conflicting set away from the signers
+				}
+				vals = append(vals, types.NewValidator(v.PubKey, v.VotingPower))
+				nilVoter[string(v.Address)] = true
+				memberPower += v.VotingPower
+			}
 		}
 		conf = types.NewValidatorSet(vals)
 		confTotal = conf.TotalVotingPower()
@@ -679,6 +708,17 @@ func (s *sim) buildLCA(r simcore.Op) *item {
 		if p != "conf_low" && signerPower*3 <= 2*confTotal {
 			return nil
 		}
+		if nl {
+			// validators that did not sign the conflicting block precommitted nil in that round.
+			// Same round as the canonical commit (equivocation): only those that are absent from
+			// the canonical commit, anybody else would really have voted twice.
+			cc := s.chain.Commits[c]
+			for i, v := range conf.Validators {
+				if !signer[string(v.Address)] && (sh == "amn" || cc.Signatures[i].Absent()) {
+					nilVoter[string(v.Address)] = true
+				}
+			}
+		}
 	default:
 		return nil
 	}
@@ -708,14 +748,20 @@ func (s *sim) buildLCA(r simcore.Op) *item {
 		bid := types.BlockID{Hash: hdr.Hash(), PartSetHeader: types.PartSetHeader{Total: 1, Hash: detBytes(32, "cpsh", r.Int("cs"), ch)}}
 		commit = &types.Commit{Height: ch, Round: round, BlockID: bid}
 		last := -1
+		nilSlots := 0
 		for i, v := range conf.Validators {
-			if !signer[string(v.Address)] {
+			flag := types.BlockIDFlagCommit
+			switch {
+			case signer[string(v.Address)]:
+			case nilVoter[string(v.Address)]:
+				flag = types.BlockIDFlagNil
+			default:
 				commit.Signatures = append(commit.Signatures, types.NewCommitSigAbsent())
 				continue
 			}
 			k := s.chain.Keys[string(v.Address)]
 			if k == nil {
-				for j := 100; j <= 104 && k == nil; j++ {
+				for _, j := range []int{100, 101, 102, 103, 104, 200} {
 					if bytes.Equal(chaingen.Key(j).PubKey().Address(), v.Address) {
 						k = chaingen.Key(j)
 					}
@@ -724,21 +770,32 @@ func (s *sim) buildLCA(r simcore.Op) *item {
 			if k == nil {
 				return nil
 			}
-			commit.Signatures = append(commit.Signatures, types.CommitSig{BlockIDFlag: types.BlockIDFlagCommit, ValidatorAddress: v.Address,
+			// (for a nil slot the signed vote is the precommit for the zero block id of this height / round)
+			commit.Signatures = append(commit.Signatures, types.CommitSig{BlockIDFlag: flag, ValidatorAddress: v.Address,
 				Timestamp: hdr.Time.Add(time.Second + time.Duration(i)*time.Millisecond)})
 			sig, err := k.Sign(commit.VoteSignBytes(signChain, int32(i)))
 			if err != nil {
 				panic(err)
 			}
 			commit.Signatures[i].Signature = sig
+			if flag == types.BlockIDFlagNil {
+				nilSlots++
+				continue
+			}
 			last = i
+		}
+		if nilSlots > 0 {
+			s.env.Count("gen.lca_with_nil_slots")
+			if p == "coal_low" || p == "conf_low" {
+				s.env.Count("gen.lca_low_with_nil_slots")
+			}
 		}
 		if p == "bad_sig" {
 			// the alleged signer never made this signature
 			at := last
 			if x%2 == 1 {
 				for i := range commit.Signatures {
-					if !commit.Signatures[i].Absent() {
+					if commit.Signatures[i].ForBlock() {
 						at = i
 						break
 					}
@@ -1319,6 +1376,16 @@ func (s *sim) drawLCA(rng *simcore.RNG) simcore.Op {
 	if rng.Intn(1000) < s.cfg.Int("pert") {
 		ps := lcaPerts[sh]
 		r["p"] = ps[rng.Intn(len(ps))]
+	}
+	if rng.Intn(1000) < s.cfg.Int("nilp") {
+		r["nl"] = 1
+		// nil slots matter most where the for-block power alone is insufficient
+		if r["p"] != "none" && rng.Bool(0.5) {
+			r["p"] = "conf_low"
+			if (sh == "lun" || sh == "fwd") && rng.Bool(0.5) {
+				r["p"] = "coal_low"
+			}
+		}
 	}
 	return r
 }
